@@ -93,20 +93,54 @@ Definition stable_b (g : list Z -> Z) (data : list Z) : bool :=
   | None => false
   end.
 
+(* ---- token sequences on which the formatter is known to glue -------------------------
+   (B) `!` directly followed by a token that starts with `=`  ("! =" -> "!=")
+   (D) two adjacent dot tokens (`.` or `...`)                  (". . ." -> "...")
+   (T) `${` / `%{` directly followed by the closing token      ("${ ~}" -> "${~" "}")
+   None of these occurs in a configuration that parses without errors.
+   (N) is not a glue pattern but a limit of the proof: `<number> . <name>` where the
+   name is e, E, e- or E-; whether it reads as an exponent depends on the token after
+   it (it never does after formatting, but the proof does not look that far). *)
+Definition is_dots (t : Z) : bool := (t =? TokenDot) || (t =? TokenEllipsis).
+Definition is_tmpl_open (t : Z) : bool := (t =? TokenTemplateInterp) || (t =? TokenTemplateControl).
+Definition hd0 (b : list Z) : Z := match b with c :: _ => c | [] => 0 end.
+Definition is_e (c : Z) : bool := (c =? 101) || (c =? 69).
+Definition short_exp (b : list Z) : bool :=
+  match b with
+  | c :: r => is_e c && match r with [] => true | [d] => (d =? 45) || (d =? 43) | d :: _ => d =? 43 end
+  | [] => false
+  end.
+Fixpoint hz (l : list (Z * list Z)) : bool :=
+  match l with
+  | x :: ((y :: r') as r) =>
+      negb ((fst x =? TokenBang) && (hd0 (snd y) =? 61)) &&
+      negb (is_dots (fst x) && is_dots (fst y)) &&
+      negb (is_tmpl_open (fst x) && (fst y =? TokenTemplateSeqEnd)) &&
+      negb ((fst x =? TokenNumberLit) && (fst y =? TokenDot) &&
+            match r' with z :: _ => (fst z =? TokenIdent) && short_exp (snd z) | [] => false end) &&
+      hz r
+  | _ => true
+  end.
+Definition hazard_free (ks : list rtok) : bool := hz (map rtyb ks).
+
+
 (* ---- a local, decidable layout condition ------------------------------------------
-   After every token, the bytes that follow it in the written output must not
-   continue it: checked on the first few bytes only, without running the scanner.
+   After every token of the main scanner, the bytes that follow it in the written
+   output must not continue it: checked on the first few bytes only, without running
+   the scanner; tokens of the string scanner carry no space before them.
      num_stopb t   a number scan that has just finished an element stops in front of t
                    (dots_stop: after at least one '.'; exp_fail: after 'e'/'E')
      id_stopb t    an identifier scan stops in front of t (ASCII punctuation, blank, newline)
      forbidden_next c / hd_okb   after the one-byte token c the next byte must not complete a
                    longer operator, a comment opener or a heredoc opener
      tail_okb b t  all three, for a token with bytes b followed by t
-     layout_okb    tail_okb after every token of a writer-token list, SpacesBefore >= 0
-   FormatBytesProofs.relex_exact_main: for sources of main-scanner tokens (simple) this
-   condition on format's output implies that the output lexes back to exactly the
-   formatted writer tokens; FormatBytesProofs.layout_of_format: format establishes it
-   when the source has none of the hazard patterns below. *)
+     tl_ty         types only the string scanner emits (QuotedLit, CQuote, "${", "%{")
+     opener_okb    "${" / "%{" without "~" is not followed by "~"
+     layout_okb    the whole condition on a writer-token list, SpacesBefore >= 0
+   FormatBytesProofs.relex_exact_nohd: for clean sources without heredocs this condition
+   on format's output implies that the output lexes back to exactly the formatted writer
+   tokens; FormatBytesProofs.layout_of_format_nohd: format establishes it when the source
+   has none of the hazard patterns above. *)
 
 Definition num_byte (c : Z) : bool := is_digit c || (c =? 46) || (c =? 101) || (c =? 69).
 
@@ -163,12 +197,6 @@ Definition tail_okb (b t : list Z) : bool :=
       (match b' with [] => hd_okb (forbidden_next c) t | _ => true end)
   end.
 
-Fixpoint layout_okb (out : list tok) : bool :=
-  match out with
-  | [] => true
-  | x :: f => (0 <=? sp x) && tail_okb (bytes x) (write f) && layout_okb f
-  end.
-
 Definition simple_ty (t : Z) : bool :=
   clean_ty t && negb (t =? TokenOHeredoc) && negb (t =? TokenOQuote).
 
@@ -176,42 +204,34 @@ Definition simple (ks : list rtok) : bool := forallb (fun k => simple_ty (k_ty k
 
 Definition spaces (n : Z) : list Z := repeatZ 32 (Z.to_nat n).
 
+Definition tl_ty (t : Z) : bool :=
+  (t =? TokenQuotedLit) || (t =? TokenCQuote) || (t =? TokenTemplateInterp) || (t =? TokenTemplateControl).
+
+Definition nohd_ty (t : Z) : bool := clean_ty t && negb (t =? TokenOHeredoc).
+
+Definition noheredoc (ks : list rtok) : bool := forallb (fun k => nohd_ty (k_ty k)) ks.
+
+Definition opener_okb (b w : list Z) : bool :=
+  match b with
+  | [_; c1] => negb ((c1 =? 123) && starts_with 126 w)
+  | _ => true
+  end.
+
+Fixpoint layout_okb (out : list tok) : bool :=
+  match out with
+  | [] => true
+  | x :: f =>
+      (0 <=? sp x) &&
+      (if tl_ty (ty x) then (sp x =? 0) && (negb (is_tmpl_open (ty x)) || opener_okb (bytes x) (write f))
+       else tail_okb (bytes x) (write f)) &&
+      layout_okb f
+  end.
+
 Definition w_bang_eq : list Z := [120; 32; 61; 32; 33; 32; 61; 32; 49; 10].
 
 Definition w_dots : list Z := [120; 32; 61; 32; 97; 46; 32; 46; 32; 46; 98; 10].
 
 Definition w_tilde : list Z := [120; 32; 61; 32; 34; 36; 123; 32; 126; 125; 34; 10].
-
-
-(* ---- token sequences on which the formatter is known to glue -------------------------
-   (B) `!` directly followed by a token that starts with `=`  ("! =" -> "!=")
-   (D) two adjacent dot tokens (`.` or `...`)                  (". . ." -> "...")
-   (T) `${` / `%{` directly followed by the closing token      ("${ ~}" -> "${~" "}")
-   None of these occurs in a configuration that parses without errors.
-   (N) is not a glue pattern but a limit of the proof: `<number> . <name>` where the
-   name is e, E, e- or E-; whether it reads as an exponent depends on the token after
-   it (it never does after formatting, but the proof does not look that far). *)
-Definition is_dots (t : Z) : bool := (t =? TokenDot) || (t =? TokenEllipsis).
-Definition is_tmpl_open (t : Z) : bool := (t =? TokenTemplateInterp) || (t =? TokenTemplateControl).
-Definition hd0 (b : list Z) : Z := match b with c :: _ => c | [] => 0 end.
-Definition is_e (c : Z) : bool := (c =? 101) || (c =? 69).
-Definition short_exp (b : list Z) : bool :=
-  match b with
-  | c :: r => is_e c && match r with [] => true | [d] => (d =? 45) || (d =? 43) | d :: _ => d =? 43 end
-  | [] => false
-  end.
-Fixpoint hz (l : list (Z * list Z)) : bool :=
-  match l with
-  | x :: ((y :: r') as r) =>
-      negb ((fst x =? TokenBang) && (hd0 (snd y) =? 61)) &&
-      negb (is_dots (fst x) && is_dots (fst y)) &&
-      negb (is_tmpl_open (fst x) && (fst y =? TokenTemplateSeqEnd)) &&
-      negb ((fst x =? TokenNumberLit) && (fst y =? TokenDot) &&
-            match r' with z :: _ => (fst z =? TokenIdent) && short_exp (snd z) | [] => false end) &&
-      hz r
-  | _ => true
-  end.
-Definition hazard_free (ks : list rtok) : bool := hz (map rtyb ks).
 
 
 (* the full byte-level statement this development aims at (NOT proved in general):
